@@ -65,14 +65,15 @@ Definition parse_ok (p : list (list ast)) : bool :=
   let '(c, v) := parse_program p in (c =? 0) && lleqb v (ns p).
 
 Lemma parse_ok_complete p : parse_encode_statement p -> parse_ok p = true.
-Proof. unfold parse_encode_statement, parse_ok. intros ->. cbn. apply lleqb_refl. Qed.
+Proof. unfold parse_encode_statement, parse_ok. intros ->. rewrite N.eqb_refl. cbn [andb]. apply lleqb_refl. Qed.
 
 Definition refutes (p : list (list ast)) : bool := wf_program p && negb (parse_ok p).
 
 Lemma refutes_sound p : refutes p = true -> wf_program p = true /\ ~ parse_encode_statement p.
 Proof.
-  unfold refutes. intros H. apply andb_true_iff in H. destruct H as (H1 & H2). split; auto.
-  intros Hs. rewrite (parse_ok_complete p Hs) in H2. discriminate.
+  unfold refutes. intros H. apply andb_true_iff in H. destruct H as (H1 & H2). split; [exact H1|].
+  intros Hs. pose proof (parse_ok_complete p Hs) as Hc.
+  destruct (parse_ok p); [discriminate H2|discriminate Hc].
 Qed.
 
 Lemma witnesses_refute :
@@ -96,8 +97,8 @@ Qed.
 Definition MTH1 := sg 0x4d 0x54 0x48 0x31.
 Definition FLD0 := sg 0x46 0x4c 0x44 0x30.
 Definition good_program : list (list ast) :=
-  [[AScope 1 (nm1 _SB_)
-      [ADevice 1 (nm1 DEV0)
+  [[AScope 2 (nm1 _SB_)
+      [ADevice 2 (nm1 DEV0)
          [AName (nm1 NAM0) (APackage 1 2 [byte 7; AStr [0x61; 0x62]]);
           AMethod 1 (nm1 MTH0) 1 [AOp aml_pOpReturn [ACall (nm1 MTH1) [AOp aml_pOpAdd [AOp aml_pOpArg0 []; byte 1; ANull]; One]]];
           AOpRegion (nm1 REG0) 1 (byte 0x10) (byte 4);
